@@ -13,15 +13,18 @@ TRUSTED = ["networkx is_d_separator / is_directed_acyclic_graph used as a second
            "deepcopy of attribute dicts observed through == only"]
 ASSUMPTIONS = ["default edge-type names", "input is a MixedEdgeGraph with a directed and a bidirected layer, acyclic directed layer",
                "generated latents are identified by structure (a node of the result that is not a caller node), never by name"]
-LEVEL_TEXT = ("canon_structure (nodes kept, directed edges kept, per bidirected edge one new parentless node with exactly the two "
-              "endpoints as children, new nodes pairwise distinct, result has only directed edges and is acyclic): Coq theorems for ALL "
-              "graphs and all injective naming functions avoiding V(G). canon_preserves_sep (d-separation in the result = m-separation "
-              "in G for all disjoint X,Y,Z of original nodes): see Props/C10.v for the level reached (unbounded at the path definition, "
-              "or bounded to all ADMGs on <=3/4 nodes by kernel computation). The code is tied to the model by correspondence on the "
-              "enumerated / random inputs, including label families that look like generated names.")
-LEVEL_NOTE = ("Node attributes, the exception behaviour on non-MixedEdgeGraph input and networkx's d-separation are observed by "
-              "correspondence only. The freshness of generated names is an obligation of the code (hypothesis fresh_ok of the theorems); "
-              "the harness tests it with caller labels 'U0','U1',...")
+LEVEL_TEXT = ("All clauses about the formal graph are Coq theorems for ALL graphs and ALL naming functions that meet the freshness "
+              "obligation fresh_ok (new, pairwise different names): canon_structure (nodes kept, directed edges among original nodes "
+              "unchanged, only directed edges, per bidirected edge exactly one new parentless node whose only children are the two "
+              "endpoints, no other nodes), canon_dag (result well formed and acyclic), canon_preserves_sep (UNBOUNDED, at the level of the "
+              "path definition msep of Graph/MSep.v: d-separation in the result <-> m-separation in G for all X,Y,Z of original nodes; "
+              "disjointness and acyclicity are not even needed) and canon_preserves_sep_dec (same for the boolean oracle the harness "
+              "runs). The code is tied to the model by correspondence on the enumerated / random inputs, including caller labels that "
+              "look like generated names ('U0','U1',...).")
+LEVEL_NOTE = ("Observed by correspondence only: node attributes are kept, the result is a networkx DiGraph, the argument is not mutated, "
+              "networkx is_d_separator on the result and m_separated on the input agree with the model. The freshness of generated names "
+              "is an obligation on the code (hypothesis fresh_ok); the unpatched code violates it for caller nodes named 'U<i>' "
+              "(fixes/C10-fresh-latent-names.patch); the naming function of the extracted model (fresh_above) is proved to meet it.")
 TECHNIQUE = "Coq proof (model satisfies spec) + extracted-model correspondence (tie K)"
 SPOT_N = 10
 UFAMS = ("U", "Urev", "Ushift")
